@@ -451,9 +451,8 @@ def check_derive(cfg, crate, rep):
     if len(rest) == 1:
         x = core(rest[0])
         if isinstance(x, IndexV):
-            rng = core(x.idx)
-            lo = I.concrete(rng.fields.get("start")) if isinstance(rng, StructV) and "start" in rng.fields else None
-            hi = I.concrete(rng.fields.get("end")) if isinstance(rng, StructV) and "end" in rng.fields else None
+            rb = common.range_bounds(I, x.idx)
+            lo, hi = rb if rb else (None, None)
             dg = core(x.base)
             detail = "range %s..%s of %s" % (lo, hi, dg.r())
             if lo == 0 and hi == 20 and isinstance(dg, CallV) and dg.callee.endswith("digest::digest"):
